@@ -13,6 +13,7 @@ from . import wire
 from .core import as_violation
 from .world import World
 
+RAISE = '__raise__'      # as a handler's "return value": the handler raises
 NSS = ['/', '/x', '/c', '/zzz']
 SERVED = ['/', '/x', '/c']
 ROOMS = ['r1', 'r2', 7]
@@ -28,7 +29,7 @@ def server_scenario_st(tier):
     tt = st.integers(0, 3)
     arg = S.tree_st(with_bytes=True, max_leaves=4)
     ret = st.one_of(st.none(), arg, st.lists(arg, max_size=2).map(tuple),
-                    st.sampled_from([(), 0, '', b'', [], False]))
+                    st.sampled_from([(), 0, '', b'', [], False, RAISE, RAISE]))
     room = st.integers(0, 2)
     auth = st.one_of(st.none(), st.just({}), st.just({'token': 't'}),
                      st.just('tok'))
@@ -67,6 +68,12 @@ def server_scenario_st(tier):
                                                st.integers(0, 5)),
                                'args': st.lists(arg, max_size=2),
                                'ret': ret, 'stray': st.none()}),
+        # an event whose handler raises (engine.io contains the exception),
+        # followed at once by an ordinary event from the same client
+        st.fixed_dictionaries({'op': st.just('fault_event'), 'c': ci,
+                               'binary': st.booleans(),
+                               'id': st.one_of(st.none(), st.integers(0, 5)),
+                               'id2': st.integers(0, 5)}),
         st.fixed_dictionaries({'op': st.just('ack'), 'c': ci,
                                'id': st.integers(0, 4),
                                'seen': st.booleans(),
@@ -160,7 +167,10 @@ def _run(case, aio, coro, setup, w, socketio, n_transports):
     def result(args):
         for a in args:
             if isinstance(a, dict) and set(a) == {'__tag'}:
-                return copy.deepcopy(rets.get(a['__tag']))
+                r = copy.deepcopy(rets.get(a['__tag']))
+                if r == RAISE:
+                    raise RuntimeError('application handler fault')
+                return r
         return None
 
     def mk(kind):
@@ -376,6 +386,20 @@ def _run(case, aio, coro, setup, w, socketio, n_transports):
                 rets[tag[0]] = op['ret']
                 w.send(c['t'], wire.EVENT, ns, op['id'],
                        [op['name'], {'__tag': tag[0]}] + list(op['args']))
+                w.h.settle()
+            elif k == 'fault_event':
+                labels['entry_points'].add('EVENT')
+                labels['faults'] += 1
+                tag[0] += 1
+                rets[tag[0]] = RAISE
+                args = [{'__tag': tag[0]}] + ([b'bin', {'k': b'x'}]
+                                              if op['binary'] else ['txt'])
+                w.send(c['t'], wire.EVENT, c['ns'], op['id'], ['a'] + args)
+                w.h.settle()
+                tag[0] += 1
+                rets[tag[0]] = 'after-fault'
+                w.send(c['t'], wire.EVENT, c['ns'], op['id2'],
+                       ['a', {'__tag': tag[0]}])
                 w.h.settle()
             elif k == 'ack':
                 labels['entry_points'].add('ACK')
